@@ -65,6 +65,7 @@ struct Dom
     using Model = Forest;
     static void init(Model& m, World& w) { m.dump_hash = hash128(w.dump()); }
     // stale handles are part of the state: the ids of removed crates (a recycled id must not make them valid again)
+    static void visit(World&, Model&, const std::string&, Agg&) {}
     static std::string key_extra(const Model& m)
     {
         std::vector<int64_t> dead;
